@@ -73,3 +73,15 @@ fn full_tdh_buffer() {
         }
     }
 }
+
+// @harness id=full_trigger_interval_nopanic props=C04 kind=full tier=quick fns=TdhValidator::check_trigger_interval,TdhValidator::matches_trigger_interval stubs=alloc::fmt::format
+// No precondition: any two TDHs (BC field is 12 bits, values above 3563 occur in corrupted data).
+#[kani::proof]
+#[kani::stub(alloc::fmt::format, stub_format)]
+#[kani::unwind(4)]
+fn full_trigger_interval_nopanic() {
+    let w: [u8; 10] = kani::any();
+    let p: [u8; 10] = kani::any();
+    kani::assume(bits(w80(&w), 12, 12) == 1 && bits(w80(&p), 12, 12) == 1); // call-site guarantee
+    let _ = TdhValidator::check_trigger_interval(&tdh_from(&w), &tdh_from(&p), kani::any());
+}
